@@ -191,4 +191,107 @@ theorem uncovered_field_alterations_refused_or_normalised (e : Env)
       | (exfalso; simp [UField.name, residue_is_exactly.1] at hres; done)
       | (cases x; simp_all [alter])
 
+/-! ## contract receives -/
+
+/-- what an accepted CONTRACT RECEIVE is stored as, read off the model -/
+private theorem applyBlock_contract {e : Env} {b s : Block} (he : e.isEmbedded b.body.address = true)
+    (h : applyBlock e b = .ok s) :
+    ∃ g, e.generate b.strip = some g ∧ g.body.changesHash = b.body.changesHash ∧ abComputeHash e.H g = b.body.hash ∧
+      s = ⟨{ b.body with basePlasma := g.body.basePlasma, totalPlasma := g.body.totalPlasma }, g.desc⟩ ∧
+      abComputeHash e.H s = b.body.hash ∧ b.body.publicKey = [] ∧ b.body.signature = [] := by
+  unfold applyBlock at h
+  split at h; · cases h
+  rename_i h4
+  split at h; · cases h
+  rename_i hbt
+  split at h; · cases h
+  split at h; · cases h
+  rename_i b1 h1
+  have e1 : b1 = b := by
+    unfold enoughPlasma at h1
+    simp only [he, if_true] at h1
+    injection h1 with h1; exact h1.symm
+  subst e1
+  split at h; · cases h
+  rename_i b2 h2
+  split at h; · cases h
+  rename_i h3
+  injection h with h
+  subst h
+  have hty : b1.body.blockType = 5 := by
+    simp [blockTypeOK, he] at hbt
+    omega
+  unfold applySwitch at h2
+  split at h2; · omega
+  split at h2; · cases h2
+  rename_i g hg
+  split at h2; · cases h2
+  rename_i hch
+  split at h2; · cases h2
+  rename_i hgh
+  injection h2 with h2
+  refine ⟨g, hg, by simpa using hch, by simpa using hgh, h2.symm, ?_⟩
+  unfold txVerify at h3
+  have he2 : e.isEmbedded b2.body.address = true := by rw [← h2]; exact he
+  simp only [he2, if_true] at h3
+  repeat' split at h3
+  all_goals first | contradiction | cases h3 | skip
+  rename_i hz hhash hpk hsig _ _
+  rw [← h2] at hhash hpk hsig
+  refine ⟨?_, ?_, ?_⟩
+  · rw [← h2]; simpa using hhash
+  · exact List.eq_nil_of_length_eq_zero (by simpa using hpk)
+  · exact List.eq_nil_of_length_eq_zero (by simpa using hsig)
+
+/-- T2 for contract receives: what the node stores IS the block it regenerates from its own state — it depends on no
+    delivered field beyond the covered ones that select the regeneration (`generate` reads `b.strip`). Hypotheses: the hash
+    function has 32-byte digests and no collision on the inputs that arise (`S`), Go field widths, and the regenerated block
+    is what `finalizeEmbedded` makes (its `Hash` is the computed hash, no key, no signature). -/
+theorem contract_receive_stored_is_regenerated (e : Env) (hHlen : ∀ x, (e.H x).length = Gen.HashSize)
+    (S : Bytes → Prop) (hH : InjOn e.H S) (b s g : Block)
+    (he : e.isEmbedded b.body.address = true) (hg : e.generate b.strip = some g)
+    (gh : g.body.hash = abComputeHash e.H g) (gk : g.body.publicKey = []) (gs : g.body.signature = [])
+    (wb : b.body.WF) (wg : g.body.WF) (ab : 0 ≤ b.body.amount) (ag : 0 ≤ g.body.amount)
+    (sS : S (abPreimage e.H s)) (sG : S (abPreimage e.H g)) (sd : S b.body.data) (sgd : S g.body.data)
+    (a : applyBlock e b = .ok s) : s = g := by
+  obtain ⟨g', hg', hch, hgh, hs, hsh, hpk, hsig⟩ := applyBlock_contract he a
+  rw [hg] at hg'
+  injection hg' with hg'
+  subst hg'
+  have hpre : abPreimage e.H s = abPreimage e.H g := hH _ _ sS sG (by
+    have : abComputeHash e.H s = abComputeHash e.H g := by rw [hsh, hgh]
+    simpa [abComputeHash] using this)
+  have ws : s.body.WF := by
+    rw [hs]
+    exact ⟨wb.version, wb.chainIdentifier, wb.blockType, wb.hash, wb.previousHash, wb.height, wb.momentumAcknowledged,
+      wb.address, wb.toAddress, wb.tokenStandard, wb.fromBlockHash, wb.fusedPlasma, wb.difficulty, wb.nonce⟩
+  have as : 0 ≤ s.body.amount := by rw [hs]; exact ab
+  obtain ⟨hd, _, hdata⟩ := abPreimage_split e.H hHlen s g ws wg as ag hpre
+  have hdata' : s.body.data = g.body.data := hH _ _ (by rw [hs]; exact sd) sgd hdata
+  have hhash : s.body.hash = g.body.hash := by
+    have : s.body.hash = b.body.hash := by rw [hs]
+    rw [this, gh, hgh]
+  obtain ⟨h1, h2, h3, h4, h5, h6, h7, h8, h9, h10, h11, h12, h13, h14⟩ := hd
+  obtain ⟨gb, gd⟩ := g
+  obtain ⟨bb, bd⟩ := b
+  subst hs
+  cases gb; cases bb
+  simp_all
+
+/-- non-vacuity of `contract_receive_stored_is_regenerated`'s acceptance hypothesis and the refusals around it: a toy node
+    whose regenerated block is `toyGen` accepts the delivered copy with altered plasma fields and descendants, stores the
+    regenerated values, and refuses a copy with a key or another changes hash -/
+def toyGen : ABody :=
+  { (default : ABody) with blockType := 5, hash := List.replicate 32 1, address := [9], changesHash := [4], basePlasma := 0, totalPlasma := 0 }
+
+def toyEnvC : Env := { toyEnv with generate := fun _ => some ⟨toyGen, []⟩ }
+
+def toyStoredC (b : Block) : Option (ABody × Nat) := (applyBlock toyEnvC b).toOption.map (fun s => (s.body, s.desc.length))
+
+theorem contract_receive_variants_witness :
+    toyStoredC ⟨{ toyGen with basePlasma := 7, totalPlasma := 9 }, [⟨toyGen, []⟩]⟩ = some (toyGen, 0) ∧
+    toyStoredC ⟨{ toyGen with publicKey := [1] }, []⟩ = none ∧
+    toyStoredC ⟨{ toyGen with signature := [1] }, []⟩ = none ∧
+    toyStoredC ⟨{ toyGen with changesHash := [5] }, []⟩ = none := by decide
+
 end ZV.C13Accept
